@@ -17,5 +17,7 @@ sed -i "s#path = \"/repo\"#path = \"$D/repo\"#" $D/harness/Cargo.toml
 cd /verif
 for c in "$@"; do
   echo "--- $c"
-  VERIF_HARNESS=$D/harness VERIF_EVIDENCE=$D/evidence VERIF_REPLAYS=$D/replays timeout 1800 ./check "$c" --tier ${SEED_TIER:-quick} 2>&1 | grep -E "VIOLATION|KNOWN-FINDING|TOOL-ERROR|MODEL-DRIFT|witness|rror|Traceback" | head -8
+  VERIF_HARNESS=$D/harness VERIF_EVIDENCE=$D/evidence VERIF_REPLAYS=$D/replays timeout 2400 ./check "$c" --tier ${SEED_TIER:-quick} > $D/out.txt 2>&1
+  grep -E "VIOLATION|KNOWN-FINDING|TOOL-ERROR|witness|rror|Traceback" $D/out.txt | head -8
+  echo "  (model-drift lines: $(grep -c "MODEL-DRIFT" $D/out.txt))"
 done
